@@ -616,13 +616,19 @@ def evaluate__sort(self: XPathFunction, context: ta.ContextType = None) -> ta.Va
         if collation is None:
             collation = self.parser.default_collation
 
+    def atomized(value: Any) -> list[Any]:
+        # The sort keys are atomized (the default key function is fn:data#1)
+        if isinstance(value, list):
+            return [a for v in value for a in self.atomize_item(v)]
+        return [a for a in self.atomize_item(value)]
+
     if len(self) == 3:
         func = self.get_argument(context, index=2, required=True, cls=XPathFunction)
         key_function = get_key_function(
-            collation, key_func=lambda x: func(x, context=context), token=self
+            collation, key_func=lambda x: atomized(func(x, context=context)), token=self
         )
     else:
-        key_function = get_key_function(collation, token=self)
+        key_function = get_key_function(collation, key_func=atomized, token=self)
 
     try:
         return xlist(sorted(self[0].select(context), key=key_function))
